@@ -3,7 +3,7 @@
 set -eu
 tag=$1; prop=$2; needs=$3
 out=/tmp/seedwork/out-$tag
-res=$(grep RESULT /tmp/seedwork/confirm-$tag.log)
+res=$(grep "^RESULT tag=" /tmp/seedwork/confirm-$tag.log)
 echo "$res" | grep -q "suite_rc=0" || { echo "suite not green: $res"; exit 1; }
 echo "$res" | grep -q "demo_without=0" || { echo "demo fails without change: $res"; exit 1; }
 echo "$res" | grep -Eq "demo_with=[1-9]" || { echo "demo passes with change: $res"; exit 1; }
